@@ -9,6 +9,7 @@ import (
 	"os"
 	"os/exec"
 	"path/filepath"
+	"regexp"
 	"sort"
 	"strings"
 	"syscall"
@@ -353,7 +354,7 @@ var subC18Run = &fw.Sub{Name: "c18.run", New: func() fw.Case { return &c18Run{} 
 	wantOut, wantCode, wantErr := expectedFromLibrary(filepath.Join(dir, "f.bcl"), libName, a)
 	got := runCLI(dir, stdin, argv...)
 	if got.code != wantCode {
-		return fw.Failf(fmt.Sprintf("bcl %q exits with status %d", argv, wantCode), "status %d, stderr %q", got.code, fw.Trunc(got.stderr, 300))
+		return fw.Failf(fmt.Sprintf("bcl %q exits with status %d", argv, wantCode), "status %d, stderr %q", got.code, fw.Trunc(stableText(got.stderr), 300))
 	}
 	if got.stdout != wantOut {
 		return fw.Failf(fmt.Sprintf("bcl %q prints what the library prints: %q", argv, fw.Trunc(wantOut, 400)), "%q", fw.Trunc(got.stdout, 400))
@@ -397,7 +398,7 @@ var subC18Misc = &fw.Sub{Name: "c18.misc", New: func() fw.Case { return &c18Misc
 	os.Mkdir(filepath.Join(dir, "adir"), 0o755)
 	expect := func(what string, r procResult, code int) *fw.Fail {
 		if r.code != code {
-			return fw.Failf(fmt.Sprintf("%s: exit status %d", what, code), "status %d stdout %q stderr %q", r.code, fw.Trunc(r.stdout, 200), fw.Trunc(r.stderr, 200))
+			return fw.Failf(fmt.Sprintf("%s: exit status %d", what, code), "status %d stdout %q stderr %q", r.code, fw.Trunc(r.stdout, 200), fw.Trunc(stableText(r.stderr), 200))
 		}
 		if code != 0 && strings.TrimSpace(r.stderr) == "" {
 			return fw.Failf(what+": message on standard error", "empty stderr")
@@ -430,11 +431,11 @@ var subC18Misc = &fw.Sub{Name: "c18.misc", New: func() fw.Case { return &c18Misc
 			return fw.Failf("bcl ok.bcl succeeds", "status %d %q", want.code, want.stderr)
 		}
 		if r := runCLI(dir, c18Progs["ok"], "/dev/stdin"); r.stdout != want.stdout || r.code != 0 {
-			return fw.Failf("bcl /dev/stdin reads the piped program: "+fw.Trunc(want.stdout, 200), "status %d %q %q", r.code, fw.Trunc(r.stdout, 200), fw.Trunc(r.stderr, 200))
+			return fw.Failf("bcl /dev/stdin reads the piped program: "+fw.Trunc(want.stdout, 200), "status %d %q %q", r.code, fw.Trunc(r.stdout, 200), fw.Trunc(stableText(r.stderr), 200))
 		}
 		empty := runCLI(dir, "", "empty.bcl")
 		if r := runCLI(dir, "", "/dev/null"); r.stdout != empty.stdout || r.code != empty.code {
-			return fw.Failf(fmt.Sprintf("bcl /dev/null behaves like an empty file: status %d %q", empty.code, empty.stdout), "status %d %q %q", r.code, r.stdout, fw.Trunc(r.stderr, 200))
+			return fw.Failf(fmt.Sprintf("bcl /dev/null behaves like an empty file: status %d %q", empty.code, empty.stdout), "status %d %q %q", r.code, r.stdout, fw.Trunc(stableText(r.stderr), 200))
 		}
 		fifo := filepath.Join(dir, "conf.fifo")
 		if err := syscall.Mkfifo(fifo, 0o600); err == nil {
@@ -449,7 +450,7 @@ var subC18Misc = &fw.Sub{Name: "c18.misc", New: func() fw.Case { return &c18Misc
 				if rf, err := os.OpenFile(fifo, os.O_RDONLY|syscall.O_NONBLOCK, 0); err == nil {
 					rf.Close()
 				}
-				return fw.Failf("bcl conf.fifo (a named pipe) reads the program: "+fw.Trunc(want.stdout, 200), "status %d %q %q", r.code, fw.Trunc(r.stdout, 200), fw.Trunc(r.stderr, 200))
+				return fw.Failf("bcl conf.fifo (a named pipe) reads the program: "+fw.Trunc(want.stdout, 200), "status %d %q %q", r.code, fw.Trunc(r.stdout, 200), fw.Trunc(stableText(r.stderr), 200))
 			}
 		}
 		// a FILE path longer than 255 bytes, dumped and loaded again
@@ -467,7 +468,7 @@ var subC18Misc = &fw.Sub{Name: "c18.misc", New: func() fw.Case { return &c18Misc
 			l := runCLI(dir, "", "--bload", "long.bcb")
 			if d.code != 0 || d.stdout != want.stdout || l.stdout != d.stdout || l.code != d.code {
 				return fw.Failf(fmt.Sprintf("a FILE path of %d bytes: --bdump then --bload reproduce %q", len(long), fw.Trunc(want.stdout, 200)),
-					"dump: status %d %q %q; load: status %d %q %q", d.code, fw.Trunc(d.stdout, 100), fw.Trunc(d.stderr, 200), l.code, fw.Trunc(l.stdout, 100), fw.Trunc(l.stderr, 200))
+					"dump: status %d %q %q; load: status %d %q %q", d.code, fw.Trunc(d.stdout, 100), fw.Trunc(stableText(d.stderr), 200), l.code, fw.Trunc(l.stdout, 100), fw.Trunc(stableText(l.stderr), 200))
 			}
 		}
 		// a dump of more than 4 KiB whose string constants straddle the loader's buffer boundaries
@@ -480,7 +481,7 @@ var subC18Misc = &fw.Sub{Name: "c18.misc", New: func() fw.Case { return &c18Misc
 			d := runCLI(dir, "", "--bdump=big.bcb", "big.bcl")
 			l := runCLI(dir, "", "--bload", "big.bcb")
 			if d.code != 0 || l.code != 0 || l.stdout != d.stdout {
-				return fw.Failf("--bload reproduces the output of a program whose dump exceeds 4 KiB", "dump status %d, load status %d %q (stdout %d vs %d bytes)", d.code, l.code, fw.Trunc(l.stderr, 200), len(l.stdout), len(d.stdout))
+				return fw.Failf("--bload reproduces the output of a program whose dump exceeds 4 KiB", "dump status %d, load status %d %q (stdout %d vs %d bytes)", d.code, l.code, fw.Trunc(stableText(l.stderr), 200), len(l.stdout), len(d.stdout))
 			}
 		}
 		// BFILE on another file system than the temporary directory, and an unusable TMPDIR
@@ -490,7 +491,7 @@ var subC18Misc = &fw.Sub{Name: "c18.misc", New: func() fw.Case { return &c18Misc
 			_, serr := os.Stat(shm)
 			os.Remove(shm)
 			if d.code != 0 || d.stdout != want.stdout || serr != nil {
-				return fw.Failf("--bdump to a BFILE on another file system works", "status %d %q %q (BFILE: %v)", d.code, fw.Trunc(d.stdout, 200), fw.Trunc(d.stderr, 200), serr)
+				return fw.Failf("--bdump to a BFILE on another file system works", "status %d %q %q (BFILE written: %v)", d.code, fw.Trunc(d.stdout, 200), fw.Trunc(stableText(d.stderr), 200), serr == nil)
 			}
 		}
 		{
@@ -501,14 +502,14 @@ var subC18Misc = &fw.Sub{Name: "c18.misc", New: func() fw.Case { return &c18Misc
 			cmd.Stdout, cmd.Stderr = &o, &e
 			rerr := cmd.Run()
 			if rerr != nil || o.String() != want.stdout {
-				return fw.Failf("--bdump does not depend on TMPDIR", "err=%v stdout %q stderr %q", rerr, fw.Trunc(o.String(), 200), fw.Trunc(e.String(), 200))
+				return fw.Failf("--bdump does not depend on TMPDIR", "err=%v stdout %q stderr %q", rerr, fw.Trunc(o.String(), 200), fw.Trunc(stableText(e.String()), 200))
 			}
 		}
 		// FILE is used as spelled: a file called "-" reached as ./-, and the name shown by -d / stored by --bdump
 		{
 			os.WriteFile(filepath.Join(dir, "-"), []byte("print \"the file named dash\"\n"), 0o644)
 			if r := runCLI(dir, c18Progs["ok"], "./-"); r.code != 0 || r.stdout != "the file named dash\n" {
-				return fw.Failf("bcl ./- runs the FILE named '-' (not standard input)", "status %d %q %q", r.code, fw.Trunc(r.stdout, 200), fw.Trunc(r.stderr, 200))
+				return fw.Failf("bcl ./- runs the FILE named '-' (not standard input)", "status %d %q %q", r.code, fw.Trunc(r.stdout, 200), fw.Trunc(stableText(r.stderr), 200))
 			}
 			os.Mkdir(filepath.Join(dir, "sub"), 0o755)
 			for _, spelled := range []string{"./ok.bcl", "sub/../ok.bcl", ".//ok.bcl"} {
@@ -525,7 +526,7 @@ var subC18Misc = &fw.Sub{Name: "c18.misc", New: func() fw.Case { return &c18Misc
 			r := runCLI(dir, "", argv...)
 			after, _ := os.ReadFile(filepath.Join(dir, "same.bcb"))
 			if r.code != 0 || r.stdout != want.stdout || !bytes.Equal(before, after) {
-				return fw.Failf(fmt.Sprintf("bcl %v loads the file, runs it and writes the same dump back", argv), "status %d %q %q; file %d -> %d bytes", r.code, fw.Trunc(r.stdout, 200), fw.Trunc(r.stderr, 200), len(before), len(after))
+				return fw.Failf(fmt.Sprintf("bcl %v loads the file, runs it and writes the same dump back", argv), "status %d %q %q; file %d -> %d bytes", r.code, fw.Trunc(r.stdout, 200), fw.Trunc(stableText(r.stderr), 200), len(before), len(after))
 			}
 		}
 		fw.Tally("process_runs", 10)
@@ -552,7 +553,7 @@ var subC18Misc = &fw.Sub{Name: "c18.misc", New: func() fw.Case { return &c18Misc
 				want := runCLI(dir, rest, argv...)
 				if rerr != nil || o.String() != want.stdout || want.code != 0 {
 					return fw.Failf(fmt.Sprintf("bcl %v with a file at offset %d as standard input behaves as with the remaining bytes piped in: %q", argv, len(skip), fw.Trunc(want.stdout, 200)),
-						"err=%v stdout %q stderr %q", rerr, fw.Trunc(o.String(), 200), fw.Trunc(e.String(), 200))
+						"err=%v stdout %q stderr %q", rerr, fw.Trunc(o.String(), 200), fw.Trunc(stableText(e.String()), 200))
 				}
 				fw.Tally("process_runs", 2)
 			}
@@ -603,7 +604,7 @@ var subC18Misc = &fw.Sub{Name: "c18.misc", New: func() fw.Case { return &c18Misc
 				}
 				if strip(d.stdout) != strip(l.stdout) || d.code != l.code {
 					return fw.Failf(fmt.Sprintf("bcl %q reproduces the output and status of bcl %q: status %d %q", loadArgs, dumpArgs, d.code, fw.Trunc(d.stdout, 300)),
-						"status %d %q (stderr %q)", l.code, fw.Trunc(l.stdout, 300), fw.Trunc(l.stderr, 200))
+						"status %d %q (stderr %q)", l.code, fw.Trunc(l.stdout, 300), fw.Trunc(stableText(l.stderr), 200))
 				}
 				fw.Tally("process_runs", 2)
 			}
@@ -618,7 +619,7 @@ var subC18Misc = &fw.Sub{Name: "c18.misc", New: func() fw.Case { return &c18Misc
 				}
 				l := runCLI(dir, "", "--bload", stem+".bcb")
 				if l.stdout != d.stdout || l.code != d.code {
-					return fw.Failf("--bload "+stem+".bcb reproduces "+fw.Trunc(d.stdout, 200), "status %d %q %q", l.code, fw.Trunc(l.stdout, 200), fw.Trunc(l.stderr, 200))
+					return fw.Failf("--bload "+stem+".bcb reproduces "+fw.Trunc(d.stdout, 200), "status %d %q %q", l.code, fw.Trunc(l.stdout, 200), fw.Trunc(stableText(l.stderr), 200))
 				}
 				fw.Tally("process_runs", 2)
 			}
@@ -630,7 +631,7 @@ var subC18Misc = &fw.Sub{Name: "c18.misc", New: func() fw.Case { return &c18Misc
 				}
 				l := runCLI(dir, "", "--bload", "env=prod.bcb")
 				if l.stdout != d.stdout || l.code != d.code {
-					return fw.Failf("--bload env=prod.bcb reproduces "+fw.Trunc(d.stdout, 200), "status %d %q %q", l.code, fw.Trunc(l.stdout, 200), fw.Trunc(l.stderr, 200))
+					return fw.Failf("--bload env=prod.bcb reproduces "+fw.Trunc(d.stdout, 200), "status %d %q %q", l.code, fw.Trunc(l.stdout, 200), fw.Trunc(stableText(l.stderr), 200))
 				}
 				fw.Tally("process_runs", 2)
 			}
@@ -640,7 +641,7 @@ var subC18Misc = &fw.Sub{Name: "c18.misc", New: func() fw.Case { return &c18Misc
 			d := runCLI(dir, "", "--bdump=o.bcb", "ok.bcl")
 			l := runCLI(dir, "", "--bload=o.bcb")
 			if l.stdout != d.stdout || l.code != d.code {
-				return fw.Failf("a BFILE that held a longer dump before is replaced: "+fw.Trunc(d.stdout, 200), "status %d %q %q", l.code, fw.Trunc(l.stdout, 200), fw.Trunc(l.stderr, 200))
+				return fw.Failf("a BFILE that held a longer dump before is replaced: "+fw.Trunc(d.stdout, 200), "status %d %q %q", l.code, fw.Trunc(l.stdout, 200), fw.Trunc(stableText(l.stderr), 200))
 			}
 			// ... and holds exactly what the library dumps for that file (nothing left over from the old content)
 			if lp, perr := bcl.Parse([]byte(c18Progs["ok"]), "ok.bcl", bcl.OptOutput(io.Discard), bcl.OptLogger(io.Discard)); perr == nil {
@@ -764,3 +765,9 @@ func commonPrefix(a, b []byte) int {
 	}
 	return n
 }
+
+var unstableRe = regexp.MustCompile(`0x[0-9a-fA-F]+|\+0x[0-9a-f]+|[0-9]{5,}`)
+
+// stableText removes what differs between two runs of the same failing command (addresses, process ids,
+// random temporary names) so that a failure reproduces with the same text.
+func stableText(s string) string { return unstableRe.ReplaceAllString(s, "#") }
